@@ -170,6 +170,14 @@ fn files(tier: Tier) -> Vec<(String, Vec<u8>)> {
             out.push((format!("wide-output:{}:pad{}", cn, pad), model::words_to_bytes(&w)));
         }
     }
+    // id-relation sequences: values typed by values, rings of ids, declarations after use, followed by a consumer
+    for (n, v) in crate::universe::id_relation_sequences(tier.pick(3, 4)) {
+        let mut w = model::header(0x0001_0300, 0, 20);
+        for i in &v {
+            w.extend(enc(i));
+        }
+        out.push((format!("id-relations:{}", n), model::words_to_bytes(&w)));
+    }
     for n in [100usize, 3000, 20000] {
         let mut w = model::header(0x0001_0300, 0, 50);
         for i in valid_function(n) {
@@ -194,6 +202,10 @@ fn valid_function(nops: usize) -> Vec<Inst> {
     v.push(Inst::new("FunctionEnd", None, None, vec![]));
     v
 }
+
+/// wall-clock horizon per file (the largest files of the universe take well under a second)
+const HORIZON_SECS: u64 = 20;
+static TIMEOUTS: std::sync::atomic::AtomicUsize = std::sync::atomic::AtomicUsize::new(0);
 
 pub fn run(tier: Tier) -> Run {
     let mut run = Run::new("C20", tier, "fault_enumeration");
@@ -248,20 +260,50 @@ pub fn run(tier: Tier) -> Run {
         .map(|(idx, (what, bytes))| {
             let path = dir.join(format!("{}.spv", idx));
             std::fs::write(&path, bytes).expect("write input file");
-            let out = Command::new(&bin).arg(&path).output();
-            let _ = std::fs::remove_file(&path);
             let rep = json!({"kind": "bytes", "bytes": hex(bytes), "file": what});
-            let out = match out {
-                Ok(o) => o,
+            // the tool must TERMINATE: it gets a wall-clock horizon (far beyond what the largest file needs), after which it
+            // is killed and the file is reported. stdout / stderr go to files so that a full pipe can never block it.
+            let (so, se) = (dir.join(format!("{}.out", idx)), dir.join(format!("{}.err", idx)));
+            let child = (|| -> std::io::Result<std::process::Child> { Command::new(&bin).arg(&path).stdout(std::fs::File::create(&so)?).stderr(std::fs::File::create(&se)?).spawn() })();
+            let mut child = match child {
+                Ok(c) => c,
                 Err(e) => return (Some(viol("C20:spawn", format!("cannot run rspirv-dis: {}", e), rep)), "spawn-failed"),
             };
+            let started = std::time::Instant::now();
+            let status = loop {
+                match child.try_wait() {
+                    Ok(Some(st)) => break Some(st),
+                    Ok(None) => {
+                        // once several files have run into the horizon the remaining ones get a short one (the verdict is
+                        // in; hundreds of further 20 s waits would add nothing)
+                        let horizon = if TIMEOUTS.load(std::sync::atomic::Ordering::Relaxed) >= 4 { 2 } else { HORIZON_SECS };
+                        if started.elapsed().as_secs() >= horizon {
+                            TIMEOUTS.fetch_add(1, std::sync::atomic::Ordering::Relaxed);
+                            let _ = child.kill();
+                            let _ = child.wait();
+                            break None;
+                        }
+                        std::thread::sleep(std::time::Duration::from_micros(if started.elapsed().as_millis() < 20 { 200 } else { 5_000 }));
+                    }
+                    Err(_) => break None,
+                }
+            };
+            let out_bytes = std::fs::read(&so).unwrap_or_default();
+            let err_bytes = std::fs::read(&se).unwrap_or_default();
+            for f in [&path, &so, &se] {
+                let _ = std::fs::remove_file(f);
+            }
+            let Some(status) = status else {
+                return (Some(viol("C20:does-not-terminate", format!("file {}: rspirv-dis was still running after {} s (killed)", what, HORIZON_SECS), rep)), "timeout");
+            };
+            struct Out {
+                status: std::process::ExitStatus,
+                stdout: Vec<u8>,
+                stderr: Vec<u8>,
+            }
+            let out = Out { status, stdout: out_bytes, stderr: err_bytes };
             let stdout = String::from_utf8_lossy(&out.stdout).to_string();
             let stderr = String::from_utf8_lossy(&out.stderr).to_string();
-            // expected, computed in-process
-            let expected = guarded(|| match rspirv::dr::load_bytes(bytes) {
-                Ok(m) => (true, format!("{}\n", m.disassemble())),
-                Err(e) => (false, format!("{}\n", e)),
-            });
             if out.status.code() != Some(0) || stderr.contains("panicked") {
                 let loc = stderr.lines().find(|l| l.contains("panicked")).unwrap_or("").to_string();
                 let class = loc.split(" at ").nth(1).map(|x| x.split(':').next().unwrap_or("").to_string()).unwrap_or_default();
@@ -270,6 +312,11 @@ pub fn run(tier: Tier) -> Run {
                     "crash",
                 );
             }
+            // expected, computed in-process (only once the tool itself is known to have survived the file)
+            let expected = guarded(|| match rspirv::dr::load_bytes(bytes) {
+                Ok(m) => (true, format!("{}\n", m.disassemble())),
+                Err(e) => (false, format!("{}\n", e)),
+            });
             match expected {
                 Err(p) => (Some(viol("C20:library-panics", format!("file {}: the library panics in-process ({}), the tool printed {:?}", what, p, stdout.chars().take(80).collect::<String>()), rep)), "library-panic"),
                 Ok((ok, want)) => {
